@@ -1,9 +1,412 @@
 /-
 C14, property theorems about the TRANSLATED cryptobyte-based decoders (part Small; see DESIGN.md 12.4).
 Same namespace as Props/C14.lean; listed in checks/C14.json under extra_props_files.
+
+`Gotlcp.Src.tlcp.codec.*` / `Gotlcp.Src.dtlcp.codec.*` are regenerated from {tlcp,dtlcp}/handshake_messages.go
+by `harness/cmd/go2lean` on every run (statement by statement; `cryptobyte.String` is the stub `cbString`
+whose methods are specified in `Gotlcp.Tie.CbString`).  `Gotlcp.Tie.CodecSmall` / `CodecSmallDtlcp` prove each
+decoder of this part equal to a closed form and the closed form equal to the hand model
+(`Gotlcp.Model.Codec` / `Model.CodecDtlcp`, instantiated with the regenerated facts).  So for EVERY receiver
+value and EVERY byte string the translated `finishedMsg.unmarshal`, `certificateVerifyMsg.unmarshal` (both
+stacks) and `helloVerifyRequestMsg.unmarshal` return `(m', true)` with the model's fields exactly when the model
+accepts and `(m', false)` exactly when it refuses; the round-trip / strictness / re-encoding theorems of
+Props/C14.lean, stated about the model, are restated below for the source text.  `dtlcpUnmarshalHeader` and
+`readUint64` are specified directly.
 -/
-import Gotlcp.Tie.CbString
+import Gotlcp.Props.C14
+import Gotlcp.Tie.CodecSmall
+import Gotlcp.Tie.CodecSmallDtlcp
 
 namespace Gotlcp.Props.C14
+open Gotlcp Gotlcp.Wire Gotlcp.Wire.Msg
+open Gotlcp.Model.Codec
+
+/-! ## tlcp -/
+
+section SrcSmallTlcp
+open Gotlcp.Tie.UnmarshalTlcpCodec Gotlcp.Tie.CodecSmall
+
+/-- the literals in the translated text (message types 20 and 15) are the regenerated facts the model is
+instantiated with, and both decoders are in the guarded list -/
+theorem C14_src_codes_small_tlcp :
+    Src.untranslated = [] ∧
+    u8 codesT.tFinished = UInt8.ofBitVec 20#8 ∧ u8 codesT.tCertificateVerify = UInt8.ofBitVec 15#8 ∧
+    codesT.complete.contains codesT.tFinished = true ∧ codesT.complete.contains codesT.tCertificateVerify = true := by
+  decide
+
+/-- `finishedMsg.unmarshal`: the exact result for every receiver and every byte string (also says what is
+left in the receiver on refusal: untouched when the guard refuses, `raw` set and `verifyData` kept when the
+vector cannot be read) -/
+theorem C14_src_finished_closed_tlcp (m : Src.tlcp.codec.finishedMsg) (data : List (BitVec 8)) :
+    Src.tlcp.codec.finishedMsg.unmarshal m data = .ok (finSpec m data) :=
+  finished_eq m data
+
+/-- `finishedMsg.unmarshal`: accepted with the model's verify_data, or refused like the model -/
+theorem C14_src_finished_tlcp (m : Src.tlcp.codec.finishedMsg) (data : List (BitVec 8)) :
+    Agree (fun m' => (⟨abs m'.verifyData⟩ : Blob)) (Src.tlcp.codec.finishedMsg.unmarshal m data)
+      (unmarshalFinished codesT (abs data)) :=
+  tie_codec_finished m data
+
+theorem C14_src_certificateVerify_closed_tlcp (m : Src.tlcp.codec.certificateVerifyMsg) (data : List (BitVec 8)) :
+    Src.tlcp.codec.certificateVerifyMsg.unmarshal m data = .ok (cvSpec m data) :=
+  certificateVerify_eq m data
+
+/-- `certificateVerifyMsg.unmarshal`: accepted with the model's signature, or refused like the model -/
+theorem C14_src_certificateVerify_tlcp (m : Src.tlcp.codec.certificateVerifyMsg) (data : List (BitVec 8)) :
+    Agree (fun m' => (⟨abs m'.signature⟩ : Blob)) (Src.tlcp.codec.certificateVerifyMsg.unmarshal m data)
+      (unmarshalCertificateVerify codesT (abs data)) :=
+  tie_codec_certificateVerify m data
+
+/-- whatever the TRANSLATED decoder accepts the model accepts with the same field -/
+theorem C14_src_accept_is_model_accept_finished_tlcp (m m' : Src.tlcp.codec.finishedMsg) (data : List (BitVec 8))
+    (h : Src.tlcp.codec.finishedMsg.unmarshal m data = .ok (m', true)) :
+    unmarshalFinished codesT (abs data) = .ok ⟨abs m'.verifyData⟩ := by
+  have e := agree_accept (C14_src_finished_tlcp m data) h
+  exact e
+
+theorem C14_src_accept_is_model_accept_certificateVerify_tlcp (m m' : Src.tlcp.codec.certificateVerifyMsg)
+    (data : List (BitVec 8)) (h : Src.tlcp.codec.certificateVerifyMsg.unmarshal m data = .ok (m', true)) :
+    unmarshalCertificateVerify codesT (abs data) = .ok ⟨abs m'.signature⟩ := by
+  have e := agree_accept (C14_src_certificateVerify_tlcp m data) h
+  exact e
+
+/-- strictness (`C14_strict_finished_tlcp` through the tie): what the translated decoder accepts has
+exactly the standard's shape — no trailing bytes, the length fields agree -/
+theorem C14_src_strict_finished_tlcp (m m' : Src.tlcp.codec.finishedMsg) (data : List (BitVec 8))
+    (h : Src.tlcp.codec.finishedMsg.unmarshal m data = .ok (m', true)) :
+    Spec.Codec.shape .tlcp .finished (abs data) = true :=
+  C14_strict_finished_tlcp _ _ (C14_src_accept_is_model_accept_finished_tlcp m m' data h)
+
+theorem C14_src_strict_certificateVerify_tlcp (m m' : Src.tlcp.codec.certificateVerifyMsg) (data : List (BitVec 8))
+    (h : Src.tlcp.codec.certificateVerifyMsg.unmarshal m data = .ok (m', true)) :
+    Spec.Codec.shape .tlcp .certificateVerify (abs data) = true :=
+  C14_strict_certificateVerify_tlcp _ _ (C14_src_accept_is_model_accept_certificateVerify_tlcp m m' data h)
+
+/-- round trip (`C14_roundtrip_finished_tlcp` through the tie): the encoding of a well-formed Finished is
+accepted by the translated decoder, whatever the receiver held, and decodes to the same verify_data -/
+theorem C14_src_roundtrip_finished_tlcp (m : Blob) (hw : Spec.Codec.wfBlob .finished m = true)
+    (m0 : Src.tlcp.codec.finishedMsg) :
+    ∃ data, encFinished codesT m = some (abs data) ∧
+      ∃ m', Src.tlcp.codec.finishedMsg.unmarshal m0 data = .ok (m', true) ∧ (⟨abs m'.verifyData⟩ : Blob) = m := by
+  obtain ⟨b, h1, h2, _⟩ := C14_roundtrip_finished_tlcp m hw
+  refine ⟨unabs b, by rw [abs_unabs]; exact h1, ?_⟩
+  have ha := C14_src_finished_tlcp m0 (unabs b)
+  rw [abs_unabs, h2] at ha
+  exact ha
+
+theorem C14_src_roundtrip_certificateVerify_tlcp (m : Blob) (hw : Spec.Codec.wfBlob .certificateVerify m = true)
+    (m0 : Src.tlcp.codec.certificateVerifyMsg) :
+    ∃ data, encCertificateVerify codesT m = some (abs data) ∧
+      ∃ m', Src.tlcp.codec.certificateVerifyMsg.unmarshal m0 data = .ok (m', true) ∧
+        (⟨abs m'.signature⟩ : Blob) = m := by
+  obtain ⟨b, h1, h2, _⟩ := C14_roundtrip_certificateVerify_tlcp m hw
+  refine ⟨unabs b, by rw [abs_unabs]; exact h1, ?_⟩
+  have ha := C14_src_certificateVerify_tlcp m0 (unabs b)
+  rw [abs_unabs, h2] at ha
+  exact ha
+
+/-- re-encoding (`C14_reencode_finished_tlcp` through the tie): bytes the spec's strict decoder accepts are
+accepted by the translated decoder with the same verify_data, and are the encoding of what was decoded -/
+theorem C14_src_reencode_finished_tlcp (data : List (BitVec 8)) (h : DHdr) (m : Blob)
+    (hs : Spec.Codec.strictBlob .tlcp .finished (abs data) = some (h, m)) (m0 : Src.tlcp.codec.finishedMsg) :
+    ∃ m', Src.tlcp.codec.finishedMsg.unmarshal m0 data = .ok (m', true) ∧ (⟨abs m'.verifyData⟩ : Blob) = m ∧
+      encFinished codesT m = some (abs data) := by
+  obtain ⟨h1, h2, _⟩ := C14_reencode_finished_tlcp (abs data) h m hs
+  have ha := C14_src_finished_tlcp m0 data
+  rw [h2] at ha
+  obtain ⟨m', e1, e2⟩ := ha
+  exact ⟨m', e1, e2, h1⟩
+
+theorem C14_src_reencode_certificateVerify_tlcp (data : List (BitVec 8)) (h : DHdr) (m : Blob)
+    (hs : Spec.Codec.strictBlob .tlcp .certificateVerify (abs data) = some (h, m))
+    (m0 : Src.tlcp.codec.certificateVerifyMsg) :
+    ∃ m', Src.tlcp.codec.certificateVerifyMsg.unmarshal m0 data = .ok (m', true) ∧ (⟨abs m'.signature⟩ : Blob) = m ∧
+      encCertificateVerify codesT m = some (abs data) := by
+  obtain ⟨h1, h2, _⟩ := C14_reencode_certificateVerify_tlcp (abs data) h m hs
+  have ha := C14_src_certificateVerify_tlcp m0 data
+  rw [h2] at ha
+  obtain ⟨m', e1, e2⟩ := ha
+  exact ⟨m', e1, e2, h1⟩
+
+/-- `readUint64` (tlcp): never an error; succeeds exactly on 8 or more bytes, then it consumed 8 bytes and
+`out` is their big-endian value; on failure `out` is untouched and the String lost 4 bytes if it had that
+many (the first `ReadUint32` succeeded), none otherwise -/
+theorem C14_src_readUint64_tlcp (s : List (BitVec 8)) (out : BitVec 64) :
+    ∃ s' v ok, Src.tlcp.codec.readUint64 s out = .ok (s', v, ok) ∧
+      (ok = true ↔ 8 ≤ s.length) ∧
+      (ok = true → s' = s.drop 8 ∧ v.toNat = beNat (s.take 8)) ∧
+      (ok = false → v = out ∧ s' = if 4 ≤ s.length then s.drop 4 else s) :=
+  readUint64_spec s out
+
+-- non-vacuity: a 12-byte Finished and a 3-byte CertificateVerify through the translated decoders …
+example : Src.tlcp.codec.finishedMsg.unmarshal {} [20, 0, 0, 12, 1, 2, 3, 4, 5, 6, 7, 8, 9, 10, 11, 12] =
+    .ok ({ raw := [20, 0, 0, 12, 1, 2, 3, 4, 5, 6, 7, 8, 9, 10, 11, 12],
+           verifyData := [1, 2, 3, 4, 5, 6, 7, 8, 9, 10, 11, 12] }, true) := by
+  rw [C14_src_finished_closed_tlcp]; exact congrArg Except.ok (by decide)
+example : Src.tlcp.codec.certificateVerifyMsg.unmarshal {} [15, 0, 0, 5, 0, 3, 0x30, 0x44, 1] =
+    .ok ({ raw := [15, 0, 0, 5, 0, 3, 0x30, 0x44, 1], signature := [0x30, 0x44, 1] }, true) := by
+  rw [C14_src_certificateVerify_closed_tlcp]; exact congrArg Except.ok (by decide)
+-- … one trailing byte inside the body (inner length 2, three bytes follow): refused, `raw` set, signature kept
+example : Src.tlcp.codec.certificateVerifyMsg.unmarshal { signature := [7] } [15, 0, 0, 5, 0, 2, 0x30, 0x44, 1] =
+    .ok ({ raw := [15, 0, 0, 5, 0, 2, 0x30, 0x44, 1], signature := [0x30, 0x44] }, false) := by
+  rw [C14_src_certificateVerify_closed_tlcp]; exact congrArg Except.ok (by decide)
+-- … a Finished whose outer length disagrees with the data: refused by the guard, receiver untouched
+example : Src.tlcp.codec.finishedMsg.unmarshal { verifyData := [9] } [20, 0, 0, 13, 1, 2, 3, 4, 5, 6, 7, 8, 9, 10, 11, 12] =
+    .ok ({ verifyData := [9] }, false) := by
+  rw [C14_src_finished_closed_tlcp]; exact congrArg Except.ok (by decide)
+-- … and the model on the same bytes
+example : unmarshalFinished codesT (abs [20, 0, 0, 12, 1, 2, 3, 4, 5, 6, 7, 8, 9, 10, 11, 12]) =
+    .ok ⟨[1, 2, 3, 4, 5, 6, 7, 8, 9, 10, 11, 12]⟩ := by decide
+-- `readUint64`: 8 bytes, and 5 bytes (the first half is consumed, the answer is false)
+example : Src.tlcp.codec.readUint64 [1, 2, 3, 4, 5, 6, 7, 8, 9] 0 = .ok ([9], 0x0102030405060708#64, true) := by
+  rw [readUint64_eq]; exact congrArg Except.ok (by decide)
+example : Src.tlcp.codec.readUint64 [1, 2, 3, 4, 5] 77 = .ok ([5], 77#64, false) := by
+  rw [readUint64_eq]; exact congrArg Except.ok (by decide)
+
+end SrcSmallTlcp
+
+/-! ## dtlcp -/
+
+section SrcSmallDtlcp
+open Gotlcp.Model.CodecDtlcp
+open Gotlcp.Tie.UnmarshalDtlcpCodec (hdrView N24)
+open Gotlcp.Tie.UnmarshalDtlcp (u16At u24At)
+open Gotlcp.Tie.CodecSmallDtlcp
+open Gotlcp.Tie.CodecSmall (unabs beNat)
+
+/-- bytes of the translation → bytes of the model (dtlcp tie) -/
+local notation "absD" => Gotlcp.Tie.UnmarshalDtlcpCodec.abs
+local notation "AgreeD" => Gotlcp.Tie.UnmarshalDtlcpCodec.Agree
+
+/-- the literals in the translated text (message types 20, 15, 3; `maxHandshake` 65536) are the regenerated
+facts the model is instantiated with, and the three decoders are in the guarded list -/
+theorem C14_src_codes_small_dtlcp :
+    Src.untranslated = [] ∧
+    u8 codesD.tFinished = UInt8.ofBitVec 20#8 ∧ u8 codesD.tCertificateVerify = UInt8.ofBitVec 15#8 ∧
+    u8 codesD.tHelloVerifyRequest = UInt8.ofBitVec 3#8 ∧
+    codesD.complete.contains codesD.tFinished = true ∧ codesD.complete.contains codesD.tCertificateVerify = true ∧
+    codesD.complete.contains codesD.tHelloVerifyRequest = true ∧ codesD.maxHandshake = 65536 ∧ codesD.hl = 12 := by
+  decide
+
+/-- `dtlcpUnmarshalHeader`: never an error; `ok` exactly when `data` has its 12 header bytes and
+fragment_length does not exceed the bytes after them; then the outputs are exactly the big-endian fields of
+the header and `body` is the fragment_length-byte prefix of the rest (the whole rest when
+fragment_length = 0); when not `ok`, every output is its zero value -/
+theorem C14_src_unmarshalHeader_dtlcp (data : List (BitVec 8)) :
+    ∃ t bl seq fo fl body ok,
+      Src.dtlcp.codec.dtlcpUnmarshalHeader data = .ok (t, bl, seq, fo, fl, body, ok) ∧
+      (ok = true ↔ 12 ≤ data.length ∧ N24 data 9 ≤ data.length - 12) ∧
+      (ok = true →
+        t = data.getD 0 0#8 ∧ bl = u24At data 1 ∧ seq = u16At data 4 ∧ fo = u24At data 6 ∧ fl = u24At data 9 ∧
+        bl.toNat = N24 data 1 ∧ fo.toNat = N24 data 6 ∧ fl.toNat = N24 data 9 ∧
+        body = if N24 data 9 = 0 then data.drop 12 else (data.drop 12).take (N24 data 9)) ∧
+      (ok = false → t = 0#8 ∧ bl = 0#32 ∧ seq = 0#16 ∧ fo = 0#32 ∧ fl = 0#32 ∧ body = []) :=
+  unmarshalHeader_spec data
+
+/-- `dtlcpUnmarshalHeader` is the model's `unmarshalHeader` on the same bytes: both refuse, or both return the
+same type, length, header fields and body -/
+theorem C14_src_unmarshalHeader_model_dtlcp (data : List (BitVec 8)) :
+    ∃ t bl seq fo fl body ok,
+      Src.dtlcp.codec.dtlcpUnmarshalHeader data = .ok (t, bl, seq, fo, fl, body, ok) ∧
+      Model.CodecDtlcp.unmarshalHeader (absD data) =
+        if ok then some (UInt8.ofBitVec t, bl.toNat, hdrView seq fo fl, absD body) else none :=
+  ⟨_, _, _, _, _, _, _, unmarshalHeader_eq data, model_unmarshalHeader data⟩
+
+theorem C14_src_finished_closed_dtlcp (m : Src.dtlcp.codec.finishedMsg) (data : List (BitVec 8)) :
+    Src.dtlcp.codec.finishedMsg.unmarshal m data = .ok (finSpec m data) :=
+  finished_eq m data
+
+/-- `finishedMsg.unmarshal`: accepted with the model's header fields and verify_data, or refused like the model -/
+theorem C14_src_finished_dtlcp (m : Src.dtlcp.codec.finishedMsg) (data : List (BitVec 8)) :
+    AgreeD (fun m' => (hdrView m'.messageSeq m'.fragmentOffset m'.fragmentLength, (⟨absD m'.verifyData⟩ : Blob)))
+      (Src.dtlcp.codec.finishedMsg.unmarshal m data) (decFinished codesD (absD data)) :=
+  tie_codec_finished m data
+
+theorem C14_src_certificateVerify_closed_dtlcp (m : Src.dtlcp.codec.certificateVerifyMsg) (data : List (BitVec 8)) :
+    Src.dtlcp.codec.certificateVerifyMsg.unmarshal m data = .ok (cvSpec m data) :=
+  certificateVerify_eq m data
+
+/-- `certificateVerifyMsg.unmarshal`: header fields and signature -/
+theorem C14_src_certificateVerify_dtlcp (m : Src.dtlcp.codec.certificateVerifyMsg) (data : List (BitVec 8)) :
+    AgreeD (fun m' => (hdrView m'.messageSeq m'.fragmentOffset m'.fragmentLength, (⟨absD m'.signature⟩ : Blob)))
+      (Src.dtlcp.codec.certificateVerifyMsg.unmarshal m data) (decCertificateVerify codesD (absD data)) :=
+  tie_codec_certificateVerify m data
+
+theorem C14_src_helloVerifyRequest_closed_dtlcp (m : Src.dtlcp.codec.helloVerifyRequestMsg) (data : List (BitVec 8)) :
+    Src.dtlcp.codec.helloVerifyRequestMsg.unmarshal m data = .ok (hvrSpec m data) :=
+  helloVerifyRequest_eq m data
+
+/-- `helloVerifyRequestMsg.unmarshal`: header fields, server_version and cookie -/
+theorem C14_src_helloVerifyRequest_dtlcp (m : Src.dtlcp.codec.helloVerifyRequestMsg) (data : List (BitVec 8)) :
+    AgreeD (fun m' => (hdrView m'.messageSeq m'.fragmentOffset m'.fragmentLength,
+        (⟨W16.ofNat m'.serverVersion.toNat, absD m'.cookie⟩ : HelloVerifyRequest)))
+      (Src.dtlcp.codec.helloVerifyRequestMsg.unmarshal m data) (decHelloVerifyRequest codesD (absD data)) :=
+  tie_codec_helloVerifyRequest m data
+
+/-- whatever the TRANSLATED decoder accepts the model accepts with the same header and body fields -/
+theorem C14_src_accept_is_model_accept_finished_dtlcp (m m' : Src.dtlcp.codec.finishedMsg) (data : List (BitVec 8))
+    (h : Src.dtlcp.codec.finishedMsg.unmarshal m data = .ok (m', true)) :
+    decFinished codesD (absD data) =
+      .ok (hdrView m'.messageSeq m'.fragmentOffset m'.fragmentLength, ⟨absD m'.verifyData⟩) := by
+  have e := agree_accept (C14_src_finished_dtlcp m data) h
+  exact e
+
+theorem C14_src_accept_is_model_accept_certificateVerify_dtlcp (m m' : Src.dtlcp.codec.certificateVerifyMsg)
+    (data : List (BitVec 8)) (h : Src.dtlcp.codec.certificateVerifyMsg.unmarshal m data = .ok (m', true)) :
+    decCertificateVerify codesD (absD data) =
+      .ok (hdrView m'.messageSeq m'.fragmentOffset m'.fragmentLength, ⟨absD m'.signature⟩) := by
+  have e := agree_accept (C14_src_certificateVerify_dtlcp m data) h
+  exact e
+
+theorem C14_src_accept_is_model_accept_helloVerifyRequest_dtlcp (m m' : Src.dtlcp.codec.helloVerifyRequestMsg)
+    (data : List (BitVec 8)) (h : Src.dtlcp.codec.helloVerifyRequestMsg.unmarshal m data = .ok (m', true)) :
+    decHelloVerifyRequest codesD (absD data) =
+      .ok (hdrView m'.messageSeq m'.fragmentOffset m'.fragmentLength,
+        ⟨W16.ofNat m'.serverVersion.toNat, absD m'.cookie⟩) := by
+  have e := agree_accept (C14_src_helloVerifyRequest_dtlcp m data) h
+  exact e
+
+/-- strictness through the tie: what the translated decoders accept has exactly the standard's shape -/
+theorem C14_src_strict_finished_dtlcp (m m' : Src.dtlcp.codec.finishedMsg) (data : List (BitVec 8))
+    (h : Src.dtlcp.codec.finishedMsg.unmarshal m data = .ok (m', true)) :
+    Spec.Codec.shape .dtlcp .finished (absD data) = true :=
+  C14_strict_finished_dtlcp _ _ (C14_src_accept_is_model_accept_finished_dtlcp m m' data h)
+
+theorem C14_src_strict_certificateVerify_dtlcp (m m' : Src.dtlcp.codec.certificateVerifyMsg) (data : List (BitVec 8))
+    (h : Src.dtlcp.codec.certificateVerifyMsg.unmarshal m data = .ok (m', true)) :
+    Spec.Codec.shape .dtlcp .certificateVerify (absD data) = true :=
+  C14_strict_certificateVerify_dtlcp _ _ (C14_src_accept_is_model_accept_certificateVerify_dtlcp m m' data h)
+
+theorem C14_src_strict_helloVerifyRequest_dtlcp (m m' : Src.dtlcp.codec.helloVerifyRequestMsg) (data : List (BitVec 8))
+    (h : Src.dtlcp.codec.helloVerifyRequestMsg.unmarshal m data = .ok (m', true)) :
+    Spec.Codec.shape .dtlcp .helloVerifyRequest (absD data) = true :=
+  C14_strict_helloVerifyRequest_dtlcp _ _ (C14_src_accept_is_model_accept_helloVerifyRequest_dtlcp m m' data h)
+
+/-- round trip through the tie: the encoding of a well-formed message (complete-message header) is accepted
+by the translated decoder, whatever the receiver held, with the same header and body fields -/
+theorem C14_src_roundtrip_finished_dtlcp (h : DHdr) (m : Blob) (hm : Spec.Codec.wfBlob .finished m = true)
+    (hw : Spec.Codec.wfDHdr h m.data.length = true) (m0 : Src.dtlcp.codec.finishedMsg) :
+    ∃ data, Model.CodecDtlcp.encFinished codesD h m = some (absD data) ∧
+      ∃ m', Src.dtlcp.codec.finishedMsg.unmarshal m0 data = .ok (m', true) ∧
+        (hdrView m'.messageSeq m'.fragmentOffset m'.fragmentLength, (⟨absD m'.verifyData⟩ : Blob)) =
+          (⟨h.seq, 0, m.data.length⟩, m) := by
+  obtain ⟨b, h1, h2, _⟩ := C14_roundtrip_finished_dtlcp h m hm hw
+  refine ⟨unabs b, by rw [abs_unabs]; exact h1, ?_⟩
+  have ha := C14_src_finished_dtlcp m0 (unabs b)
+  rw [abs_unabs, h2] at ha
+  exact ha
+
+theorem C14_src_roundtrip_certificateVerify_dtlcp (h : DHdr) (m : Blob)
+    (hm : Spec.Codec.wfBlob .certificateVerify m = true) (hw : Spec.Codec.wfDHdr h (2 + m.data.length) = true)
+    (m0 : Src.dtlcp.codec.certificateVerifyMsg) :
+    ∃ data, Model.CodecDtlcp.encCertificateVerify codesD h m = some (absD data) ∧
+      ∃ m', Src.dtlcp.codec.certificateVerifyMsg.unmarshal m0 data = .ok (m', true) ∧
+        (hdrView m'.messageSeq m'.fragmentOffset m'.fragmentLength, (⟨absD m'.signature⟩ : Blob)) =
+          (⟨h.seq, 0, 2 + m.data.length⟩, m) := by
+  obtain ⟨b, h1, h2, _⟩ := C14_roundtrip_certificateVerify_dtlcp h m hm hw
+  refine ⟨unabs b, by rw [abs_unabs]; exact h1, ?_⟩
+  have ha := C14_src_certificateVerify_dtlcp m0 (unabs b)
+  rw [abs_unabs, h2] at ha
+  exact ha
+
+theorem C14_src_roundtrip_helloVerifyRequest_dtlcp (h : DHdr) (m : HelloVerifyRequest)
+    (hm : Spec.Codec.wfHelloVerifyRequest m = true) (hw : Spec.Codec.wfDHdr h (3 + m.cookie.length) = true)
+    (m0 : Src.dtlcp.codec.helloVerifyRequestMsg) :
+    ∃ data, encHelloVerifyRequest codesD h m = some (absD data) ∧
+      ∃ m', Src.dtlcp.codec.helloVerifyRequestMsg.unmarshal m0 data = .ok (m', true) ∧
+        (hdrView m'.messageSeq m'.fragmentOffset m'.fragmentLength,
+          (⟨W16.ofNat m'.serverVersion.toNat, absD m'.cookie⟩ : HelloVerifyRequest)) =
+          (⟨h.seq, 0, 3 + m.cookie.length⟩, m) := by
+  obtain ⟨b, h1, h2, _⟩ := C14_roundtrip_helloVerifyRequest_dtlcp h m hm hw
+  refine ⟨unabs b, by rw [abs_unabs]; exact h1, ?_⟩
+  have ha := C14_src_helloVerifyRequest_dtlcp m0 (unabs b)
+  rw [abs_unabs, h2] at ha
+  exact ha
+
+/-- re-encoding through the tie: bytes the spec's strict decoder accepts are accepted by the translated
+decoder with the same header and body fields, and are the encoding of what was decoded -/
+theorem C14_src_reencode_finished_dtlcp (data : List (BitVec 8)) (h : DHdr) (m : Blob)
+    (hs : Spec.Codec.strictBlob .dtlcp .finished (absD data) = some (h, m)) (m0 : Src.dtlcp.codec.finishedMsg) :
+    ∃ m', Src.dtlcp.codec.finishedMsg.unmarshal m0 data = .ok (m', true) ∧
+      (hdrView m'.messageSeq m'.fragmentOffset m'.fragmentLength, (⟨absD m'.verifyData⟩ : Blob)) = (h, m) ∧
+      Model.CodecDtlcp.encFinished codesD h m = some (absD data) := by
+  obtain ⟨h1, h2, _⟩ := C14_reencode_finished_dtlcp (absD data) h m hs
+  have ha := C14_src_finished_dtlcp m0 data
+  rw [h2] at ha
+  obtain ⟨m', e1, e2⟩ := ha
+  exact ⟨m', e1, e2, h1⟩
+
+theorem C14_src_reencode_certificateVerify_dtlcp (data : List (BitVec 8)) (h : DHdr) (m : Blob)
+    (hs : Spec.Codec.strictBlob .dtlcp .certificateVerify (absD data) = some (h, m))
+    (m0 : Src.dtlcp.codec.certificateVerifyMsg) :
+    ∃ m', Src.dtlcp.codec.certificateVerifyMsg.unmarshal m0 data = .ok (m', true) ∧
+      (hdrView m'.messageSeq m'.fragmentOffset m'.fragmentLength, (⟨absD m'.signature⟩ : Blob)) = (h, m) ∧
+      Model.CodecDtlcp.encCertificateVerify codesD h m = some (absD data) := by
+  obtain ⟨h1, h2, _⟩ := C14_reencode_certificateVerify_dtlcp (absD data) h m hs
+  have ha := C14_src_certificateVerify_dtlcp m0 data
+  rw [h2] at ha
+  obtain ⟨m', e1, e2⟩ := ha
+  exact ⟨m', e1, e2, h1⟩
+
+theorem C14_src_reencode_helloVerifyRequest_dtlcp (data : List (BitVec 8)) (h : DHdr) (m : HelloVerifyRequest)
+    (hs : Spec.Codec.strictHelloVerifyRequest (absD data) = some (h, m))
+    (m0 : Src.dtlcp.codec.helloVerifyRequestMsg) :
+    ∃ m', Src.dtlcp.codec.helloVerifyRequestMsg.unmarshal m0 data = .ok (m', true) ∧
+      (hdrView m'.messageSeq m'.fragmentOffset m'.fragmentLength,
+        (⟨W16.ofNat m'.serverVersion.toNat, absD m'.cookie⟩ : HelloVerifyRequest)) = (h, m) ∧
+      encHelloVerifyRequest codesD h m = some (absD data) := by
+  obtain ⟨h1, h2, _⟩ := C14_reencode_helloVerifyRequest_dtlcp (absD data) h m hs
+  have ha := C14_src_helloVerifyRequest_dtlcp m0 data
+  rw [h2] at ha
+  obtain ⟨m', e1, e2⟩ := ha
+  exact ⟨m', e1, e2, h1⟩
+
+/-- `readUint64` (dtlcp; the same term as in tlcp) -/
+theorem C14_src_readUint64_dtlcp (s : List (BitVec 8)) (out : BitVec 64) :
+    ∃ s' v ok, Src.dtlcp.codec.readUint64 s out = .ok (s', v, ok) ∧
+      (ok = true ↔ 8 ≤ s.length) ∧
+      (ok = true → s' = s.drop 8 ∧ v.toNat = beNat (s.take 8)) ∧
+      (ok = false → v = out ∧ s' = if 4 ≤ s.length then s.drop 4 else s) :=
+  Gotlcp.Tie.CodecSmall.readUint64_spec s out
+
+-- non-vacuity.  A HelloVerifyRequest (message_seq 1, version 1.1, cookie aa bb cc) …
+example : Src.dtlcp.codec.helloVerifyRequestMsg.unmarshal { cookie := [9] }
+      [3, 0, 0, 6, 0, 1, 0, 0, 0, 0, 0, 6, 1, 1, 3, 0xaa, 0xbb, 0xcc] =
+    .ok ({ raw := [3, 0, 0, 6, 0, 1, 0, 0, 0, 0, 0, 6, 1, 1, 3, 0xaa, 0xbb, 0xcc], serverVersion := 0x0101#16,
+           cookie := [0xaa, 0xbb, 0xcc], messageSeq := 1#16, fragmentOffset := 0#32, fragmentLength := 6#32 }, true) := by
+  rw [C14_src_helloVerifyRequest_closed_dtlcp]; exact congrArg Except.ok (by decide)
+-- … with a cookie length that leaves a trailing byte: refused; the receiver was reset and the fields read so far stay
+example : Src.dtlcp.codec.helloVerifyRequestMsg.unmarshal { cookie := [9] }
+      [3, 0, 0, 6, 0, 1, 0, 0, 0, 0, 0, 6, 1, 1, 2, 0xaa, 0xbb, 0xcc] =
+    .ok ({ raw := [3, 0, 0, 6, 0, 1, 0, 0, 0, 0, 0, 6, 1, 1, 2, 0xaa, 0xbb, 0xcc], serverVersion := 0x0101#16,
+           cookie := [0xaa, 0xbb], messageSeq := 1#16, fragmentOffset := 0#32, fragmentLength := 6#32 }, false) := by
+  rw [C14_src_helloVerifyRequest_closed_dtlcp]; exact congrArg Except.ok (by decide)
+-- … a Finished with 12 bytes of verify_data, and the model on the same bytes
+example : Src.dtlcp.codec.finishedMsg.unmarshal {}
+      [20, 0, 0, 12, 0, 5, 0, 0, 0, 0, 0, 12, 1, 2, 3, 4, 5, 6, 7, 8, 9, 10, 11, 12] =
+    .ok ({ raw := [20, 0, 0, 12, 0, 5, 0, 0, 0, 0, 0, 12, 1, 2, 3, 4, 5, 6, 7, 8, 9, 10, 11, 12],
+           verifyData := [1, 2, 3, 4, 5, 6, 7, 8, 9, 10, 11, 12], messageSeq := 5#16, fragmentOffset := 0#32,
+           fragmentLength := 12#32 }, true) := by
+  rw [C14_src_finished_closed_dtlcp]; exact congrArg Except.ok (by decide)
+example : decFinished codesD (absD [20, 0, 0, 12, 0, 5, 0, 0, 0, 0, 0, 12, 1, 2, 3, 4, 5, 6, 7, 8, 9, 10, 11, 12]) =
+    .ok (⟨(0, 5), 0, 12⟩, ⟨[1, 2, 3, 4, 5, 6, 7, 8, 9, 10, 11, 12]⟩) := by decide
+-- … a fragment (fragment_offset 4) is refused by the guard, the receiver untouched
+example : Src.dtlcp.codec.finishedMsg.unmarshal { verifyData := [9] }
+      [20, 0, 0, 12, 0, 5, 0, 0, 4, 0, 0, 8, 1, 2, 3, 4, 5, 6, 7, 8] = .ok ({ verifyData := [9] }, false) := by
+  rw [C14_src_finished_closed_dtlcp]; exact congrArg Except.ok (by decide)
+-- … a CertificateVerify
+example : Src.dtlcp.codec.certificateVerifyMsg.unmarshal {} [15, 0, 0, 5, 0, 2, 0, 0, 0, 0, 0, 5, 0, 3, 0x30, 0x44, 1] =
+    .ok ({ raw := [15, 0, 0, 5, 0, 2, 0, 0, 0, 0, 0, 5, 0, 3, 0x30, 0x44, 1], signature := [0x30, 0x44, 1],
+           messageSeq := 2#16, fragmentOffset := 0#32, fragmentLength := 5#32 }, true) := by
+  rw [C14_src_certificateVerify_closed_dtlcp]; exact congrArg Except.ok (by decide)
+-- `dtlcpUnmarshalHeader` alone also parses FRAGMENTS: fragment_length 2 of a 5-byte rest, and refuses 3 of 2
+example : Src.dtlcp.codec.dtlcpUnmarshalHeader [11, 0, 0, 9, 0, 1, 0, 0, 4, 0, 0, 2, 7, 8, 9, 10, 11] =
+    .ok (11#8, 9#32, 1#16, 4#32, 2#32, [7, 8], true) := by
+  rw [unmarshalHeader_eq]; rfl
+example : Src.dtlcp.codec.dtlcpUnmarshalHeader [11, 0, 0, 9, 0, 1, 0, 0, 4, 0, 0, 3, 7, 8] =
+    .ok (0#8, 0#32, 0#16, 0#32, 0#32, [], false) := by
+  rw [unmarshalHeader_eq]; rfl
+
+end SrcSmallDtlcp
 
 end Gotlcp.Props.C14
